@@ -32,6 +32,7 @@ def baseGen (op : String) (ps : String) (fault : Option Err) : Option (Gen Int) 
   | "Empty", [] => some emptyG
   | "Throw", [k] => some (throwG (.user (natOf k)))
   | "Range", [s, e] => some (rangeG s e)
+  | "RangeWithStep", [s, e, st] => if st ≤ 0 then none else some (rangeStepG s e st)
   | "Repeat", [item, count] => some (repeatG item (natOf count))
   | "Start", [v] => some (startG (match fault with | none => .ok v | some e => .panic e))
   | _, _ => none
